@@ -62,7 +62,7 @@ def run(res, tier, rng):
     core_hosts += ["netflix.com", "chat.me", "instagramxcom", "notfacebook.com", "facebook.com.", "l.facebook.com", "l.instagram.com", "l.example.com", "localhost", "127.0.0.1", "youtu.be", "localhostcert.net", "localhost.daplie.me", "127.0.0.1.nip.io", "localhost.bit.ly", "1.2.3.4.t.co"]
     core_hosts = list(dict.fromkeys(core_hosts))
     hosts = [h for h in dict.fromkeys(hosts) if h not in core_hosts]
-    decoys = ["?next=user@facebook.com/login", "#a@fb.me/x", "?u=@twitter.com", "#@x.com/home", "?mail=me@www.instagram.com#top", "#chat@t.me",
+    decoys = ["#/x.facebook.com/", "/#!/a", "#!/home", "/#/", "/index.html#/route", "?next=user@facebook.com/login", "#a@fb.me/x", "?u=@twitter.com", "#@x.com/home", "?mail=me@www.instagram.com#top", "#chat@t.me",
               "?c=x@telegram.me/chan", "/a?b@t.me", "/index", "/home/", "/index/", "/PhuS", "/Ab1/", "?@facebook.com:80", "#x@twitter.com?",
               "/a/b", "/index.php", "/ab", "/a-b", "/%41bc", "/abc?x=1", "/abc#f", "//abc", "", "/", "/x.facebook.com/", "/@facebook.com/", "/@t.me", "/abc", "/abcdef/", "/index.html", "/a/b.php?u=twitter.com", "?q=instagram.com", "#t.me", "/x.com", "/home", "/a.pdf", "/a.b.c.tar.gz"]
     users = ["", "twitter.com@", "u:p@", "x.com:t.me@"]
